@@ -13,6 +13,19 @@ pub struct Violation {
     pub extra: String,
 }
 
+/// One line `SIGCOUNT {"<signature>": <count>, …}`: how many violations of each signature the run
+/// found (the VIOLATION lines themselves are printed once per signature).  `./check` uses it to
+/// enforce the frequency ceiling of each known finding: a change that makes a listed defect far
+/// more frequent than it is on the unchanged tree is a different violation of the same property.
+pub fn print_signature_counts(out: &[Violation]) {
+    let mut m: std::collections::BTreeMap<&str, usize> = std::collections::BTreeMap::new();
+    for v in out {
+        *m.entry(v.signature.as_str()).or_insert(0) += 1;
+    }
+    let body: Vec<String> = m.iter().map(|(k, n)| format!("\"{}\": {}", json_escape(k), n)).collect();
+    println!("SIGCOUNT {{{}}}", body.join(", "));
+}
+
 pub fn enc_system_json(sys: &System) -> String {
     let reqs: Vec<String> = sys
         .reqs
